@@ -33,6 +33,10 @@ EVSEQ  == [h |-> "evseq"]
 KEY(s) == [h |-> "key", c |-> s]
 ICONST == [h |-> "iconst"]
 
+\* intermediate results that a later top-level step takes apart: (seq, seq) tuples and {"ca": .., "cb": ..} dicts
+TUP(t1, t2) == [h |-> "tup", v |-> <<t1, t2>>]
+DCT(t1, t2) == [h |-> "dict", v |-> <<t1, t2>>]
+
 Tok(k, a, b, n, d) == [k |-> k, a |-> a, b |-> b, n |-> n, d |-> d]
 Hole(ty, env) == [ty |-> ty, env |-> env]
 P(tok, holes) == [tok |-> tok, holes |-> holes]
@@ -49,6 +53,7 @@ ElemTypes == {N} \cup {O(c) : c \in Prof.classes}
 \* fewest tokens that can complete a hole (used only to prune hopeless derivations)
 MinTok(h) ==
   CASE h.ty.h \in {"num", "row", "item", "iconst", "key", "ev"} -> 1
+    [] h.ty.h \in {"tup", "dict"} -> IF VarsOf(h.env, h.ty) # {} THEN 1 ELSE 5
     [] h.ty.h = "root" -> 3
     [] h.ty.h = "bool" -> IF Prof.boolConst THEN 1 ELSE 3
     [] h.ty.h = "obj" -> IF VarsOf(h.env, h.ty) # {} THEN 1 ELSE 3
@@ -79,7 +84,14 @@ VecMeth(e, env) == {P(Tok("Meth", Methods[i].name, "", 0, 1), <<Hole(O(Methods[i
                             /\ Methods[i].cls \in Prof.classes
                             /\ Methods[i].name \in Prof.methods}}
 
-VarProds(ty, env) == {P(Tok("Var", x, "", 0, 1), <<>>) : x \in VarsOf(env, ty)}
+TupleVars(env) == {i \in DOMAIN env : env[i].ty.h \in {"tup", "dict"} /\ \A j \in DOMAIN env : j > i => env[j].x # env[i].x}
+\* a variable of the type itself, or a component of a tuple / dict variable
+VarProds(ty, env) ==
+     {P(Tok("Var", x, "", 0, 1), <<>>) : x \in VarsOf(env, ty)}
+  \cup {P(Tok("TupIdx", "", "", c - 1, 1), <<Hole(env[i].ty, env)>>) :
+          i \in {i \in TupleVars(env) : env[i].ty.h = "tup"}, c \in {c \in 1..2 : \E i \in TupleVars(env) : env[i].ty.h = "tup" /\ env[i].ty.v[c] = ty}}
+  \cup {P(Tok("DictGet", <<"ca", "cb">>[c], "", 0, 1), <<Hole(env[i].ty, env)>>) :
+          i \in {i \in TupleVars(env) : env[i].ty.h = "dict"}, c \in {c \in 1..2 : \E i \in TupleVars(env) : env[i].ty.h = "dict" /\ env[i].ty.v[c] = ty}}
 
 NumProds(env) ==
      {P(Tok("Const", c[1], "", c[2], c[3]), <<>>) : c \in Prof.consts}
@@ -193,6 +205,11 @@ Prods(h) ==
     [] h.ty.h = "ev"     -> VarProds(EV, h.env)
     [] h.ty.h = "top"    -> TopProds(h.ty.e)
     [] h.ty.h = "evseq"  -> EvSeqProds
+    [] h.ty.h = "tup"    -> {P(Tok("Var", x, "", 0, 1), <<>>) : x \in VarsOf(h.env, h.ty)}
+                            \cup (IF VarsOf(h.env, h.ty) = {} THEN {P(Tok("Tuple", "", "", 2, 1), <<Hole(h.ty.v[1], h.env), Hole(h.ty.v[2], h.env)>>)} ELSE {})
+    [] h.ty.h = "dict"   -> {P(Tok("Var", x, "", 0, 1), <<>>) : x \in VarsOf(h.env, h.ty)}
+                            \cup (IF VarsOf(h.env, h.ty) = {} THEN {P(Tok("Dict", "", "", 2, 1), <<Hole(KEY("ca"), h.env), Hole(h.ty.v[1], h.env),
+                                                                                                 Hole(KEY("cb"), h.env), Hole(h.ty.v[2], h.env)>>)} ELSE {})
     [] h.ty.h = "key"    -> {P(Tok("Str", h.ty.c, "", 0, 1), <<>>)}
     [] h.ty.h = "root"   -> TopProds(ROW) \cup
                             {P(Tok("Root", "mytree", "myfile", n, 1),
